@@ -72,6 +72,11 @@ func (w *Worker) Mine(ctx context.Context, data []byte, targetScore float64) (ui
 	if z := math.Ceil(math.Log(float64(len(data)+nonceBytes)*targetScore) / ln3); z > 0 {
 		targetZeros = uint(z)
 	}
+	// the logarithm is only an estimate in float64 (a target just above 3^k/len can round down to k):
+	// correct it with the exact expression Score evaluates, so that a returned nonce always meets the target
+	for math.Pow(consts.TrinaryRadix, float64(targetZeros))/float64(len(data)+nonceBytes) < targetScore {
+		targetZeros++
+	}
 
 	workerWidth := math.MaxUint64 / uint64(w.numWorkers)
 	for i := 0; i < w.numWorkers; i++ {
